@@ -1,6 +1,8 @@
 """G01 — matrix algebra and reductions (growth area): MechMatrixOps enumerated by TLC (matrix product, transpose,
 stats/sum/row, stats/sum/column, matrix/dot, and the composite expressions of the algebraic laws), every case replayed on the
-real interpreter for several element kinds, with literal operands and with operands held in variables."""
+real interpreter for several element kinds, with literal operands, with operands held in variables, and with operands
+materialised through law-justified routes (I ** A, (I ** A')', (A')', 1 x 1 products): the result of an operator depends on the
+value of its operands only, not on the expression that computed them."""
 import collections
 from fractions import Fraction
 import tlc, execpool, render, absval
@@ -183,7 +185,7 @@ def run(rep, tier, seed):
     for req, (resp, oc), m in zip(reqs[:nscalar], outs[:nscalar], meta[:nscalar]):
         st = (resp or {}).get("steps") or []
         sacc[m[1]] = (oc == "ok" and len(st) == 2 and st[1].get("r") == "ok" and bool(st[1].get("shape")) and st[1]["shape"][0].startswith("MechCode"))
-    arms = set(); tally = collections.Counter(); dot_matrix = collections.Counter()
+    arms = set(); tally = collections.Counter(); dot_matrix = collections.Counter(); perkind = collections.Counter()
     # storage-class pairs whose plain product `A ** B` is rejected although conformable (each is reported below under its own
     # signature): a composite expression that contains such a product is attributed to that signature, not to a new one
     bad_pairs = set()
@@ -206,7 +208,7 @@ def run(rep, tier, seed):
         ev = st[npre]
         if ev.get("p") != "ok" or not (ev.get("shape") and ev["shape"][0].startswith("MechCode")):
             rep.fail(f"{fam}/noparse", f"{req['stmts'][npre]} did not parse as code: {ev.get('p')} {ev.get('shape')}", replay); continue
-        arms.add(ev.get("arm"))
+        arms.add(ev.get("arm")); perkind[kind] += 1
         # purity: the operands are unchanged by the evaluation (accepted or rejected)
         if npre:
             store = ev.get("store", {})
@@ -269,10 +271,10 @@ def run(rep, tier, seed):
                     "traces_validated_against_impl": nrep, "cases_emitted": len(cases), "cases_replayed": nrep,
                     "exact_matched": tally["exact_ok"], "rejects_matched": tally["reject_ok"], "free_outcomes": tally["free"],
                     "steps_unchanged": tally["step_ok"], "out_of_range(free)": tally["out_of_range"],
-                    "cases_with_no_second_kind": skipped, "arms_hit": len(arms), "routed_operand_unbuildable": tally["route_unbuildable"],
+                    "cases_with_no_second_kind": skipped, "replayed_per_kind": dict(sorted(perkind.items())), "arms_hit": len(arms), "routed_operand_unbuildable": tally["route_unbuildable"],
                     "scalar_form_accepting_kinds": sorted(k for k, v in sacc.items() if v),
                     "matrix_dot_outside_documented_domain": dict(dot_matrix), "exhaustive": True,
-                    "rule": "every (operator, operand shapes, filling) of the bounded MechMatrixOps model (all shape pairs for ** and matrix/dot, all shapes for ', stats/sum/row, stats/sum/column and the composite expressions of the laws, all conformable triples of the chain dimensions); each replayed for f64 and rotating / further element kinds, with operands in variables and as literals; shape and every element compared exactly; one re-evaluation step"})
+                    "rule": "every (operator, operand shapes, filling) of the bounded MechMatrixOps model (all shape pairs for ** and matrix/dot, all shapes for ', stats/sum/row, stats/sum/column and the composite expressions of the laws, all conformable triples of the chain dimensions); each replayed for f64 and rotating / further element kinds, with operands in variables and as literals; for the RouteFills also with each operand computed through the routes of spec/MC_G01.tla (f64 and one rotating unsigned/float kind); shape and every element compared exactly; operands unchanged; one re-evaluation step"})
     rep.add_samples([{"stmts": r["stmts"][:-1], "exp": m[0]["exp"], "sig": m[0]["sig"]} for r, m in list(zip(reqs, meta))[nscalar:]])
     rep.assumptions += ["TLC 1.8.0", "harness projection (harness/src/project.rs)", "renderer lib/render.py",
                         "fillings in spec/MC_G01.tla (Discriminating is checked by TLC)",
